@@ -14,7 +14,7 @@ RULE = (
     "stateless exploration of delivery schedules of one server reply over a scripted transport (sync: FakeSocket returning at most the current chunk per "
     "recv/recv_into; async: real asyncio.StreamReader fed chunk by chunk on the virtual loop). Replies: bind_ack, bind_ack+auth, alter_context_resp, response "
     "(stub 0,1,100,1000,5000), fault. Schedules: all partitions into 1..3 chunks (every cut pair) for replies <= 200/400 bytes, all 1-2 chunk partitions plus all "
-    "3-chunk partitions with a cut in the first 32 bytes for larger ones, all 2^15 compositions of the 16-byte header, byte-by-byte delivery, and EOF after every "
+    "3-chunk partitions with a cut in the first 32 bytes for larger ones, all 2^15 compositions of the 16-byte header, byte-by-byte delivery, five exchanges of very different reply lengths on one connection (long, short, fault, medium, empty) with a cut at every header offset of each, and EOF after every "
     "byte offset combined with every 1-2 chunk partition of the delivered prefix. Oracle: complete delivery => same outcome (PDU or exception) as unsegmented delivery; "
     "EOF => an ordinary exception after <= 2 EOF reads, inside the step budget. state = (reply, api, cut set, eof offset) schedule; transition = one chunk/EOF delivery. "
     "Non-trivial = at least one cut or an EOF (the environment deviated from the default answer)."
@@ -127,6 +127,58 @@ def execute(api: str, kind: str, chunks: t.List[t.Optional[bytes]], budgeted: bo
     return st, v, eof_reads
 
 
+class SeqPeer:
+    """one connection, several requests; replies of very different lengths, each delivered in chosen chunks"""
+
+    def __init__(self, replies: t.List[t.List[t.Optional[bytes]]]) -> None:
+        self.replies = replies
+        self.n = 0
+
+    def connect(self, host: str, port: int) -> "SeqPeer":
+        return self
+
+    def feed(self, data: bytes) -> t.List[t.Optional[bytes]]:
+        i = self.n
+        self.n += 1
+        return list(self.replies[i]) if i < len(self.replies) else [None]
+
+
+def run_seq(api: str, chunked: t.List[t.List[t.Optional[bytes]]]):
+    from dpapi_ng._rpc import async_create_rpc_connection, create_rpc_connection
+
+    peer = SeqPeer(chunked)
+    out: t.List[t.Any] = []
+    with transport.network(peer):
+        try:
+            if api == "sync":
+                c = create_rpc_connection("dc", 135)
+                try:
+                    for _ in chunked:
+                        try:
+                            out.append(("ok", c.request(0, 3, b"stub-data")))
+                        except Exception as e:  # noqa: BLE001
+                            out.append(("exc", (type(e).__name__, str(e)[:120])))
+                finally:
+                    c.close()
+            else:
+
+                async def go():
+                    c = await async_create_rpc_connection("dc", 135)
+                    try:
+                        for _ in chunked:
+                            try:
+                                out.append(("ok", await c.request(0, 3, b"stub-data")))
+                            except Exception as e:  # noqa: BLE001
+                                out.append(("exc", (type(e).__name__, str(e)[:120])))
+                    finally:
+                        await c.close()
+
+                vloop.run(go())
+        except (transport.Spin, transport.BlocksForever, vloop.Deadlock) as e:
+            out.append(("blocks", repr(e)))
+    return out
+
+
 def split(reply: bytes, cuts: t.Sequence[int]) -> t.List[t.Optional[bytes]]:
     out: t.List[t.Optional[bytes]] = []
     prev = 0
@@ -165,6 +217,7 @@ def shards(tier: str, seed: int):
             for part in range(8):
                 out.append(["hdr", api, kind, part])
         out.append(["bytes", api])
+        out.append(["seq", api])
     return out
 
 
@@ -246,6 +299,34 @@ def run_shard(shard, tier, seed, acc) -> None:
             acc.states += 1
             acc.transitions += len(reply)
             acc.nt_counted()
+    elif what == "seq":
+        # several exchanges on ONE connection, replies long -> short -> fault -> medium, each with a cut at every listed offset
+        kinds = ["resp1000", "resp1", "fault", "resp100", "resp0"]
+        replies = [canned(k)[0][0] for k in kinds]
+        base = run_seq(api, [[r] for r in replies])
+        cnt = 0
+        for which in range(len(kinds)):
+            nrep = len(replies[which])
+            for cut in sorted(set(list(range(1, min(nrep, 40))) + [nrep // 2, nrep - 1])):
+                if not 0 < cut < nrep:
+                    continue
+                chunked = [[r] for r in replies]
+                chunked[which] = split(replies[which], (cut,))
+                got = run_seq(api, chunked)
+                cnt += 1
+                acc.transitions += len(kinds) + 1
+                if got != base:
+                    i = next((i for i, (x, y) in enumerate(zip(got, base)) if x != y), min(len(got), len(base)))
+                    acc.violate(f"seq.differs.{api}", ["seq", api, which, cut], {"exchange": i, "segmented": repr(got[i] if i < len(got) else None)[:300], "unsegmented": repr(base[i] if i < len(base) else None)[:300]}, size=cut)
+        if [st for st, _ in base] != ["ok", "ok", "exc", "ok", "ok"]:
+            acc.violate(f"seq.baseline.{api}", ["seq", api, -1, 0], {"baseline": repr([st for st, _ in base])})
+        for (st, v), k in zip(base, kinds):
+            if st == "ok" and bytes(v.stub_data) != rpc.decode(canned(k)[0][0])["stub"]:
+                acc.violate(f"seq.stale-bytes.{api}", ["seq", api, -1, 0], {"reply": k, "got_len": len(v.stub_data)})
+        acc.ev(cnt)
+        acc.states += cnt
+        acc.nt_counted(cnt)
+        acc.sample({"api": api, "one connection": kinds, "cut_in_reply": which, "cut_at": cut})
     elif what == "eof":
         kind = shard[2]
         replies, target = canned(kind)
@@ -275,6 +356,9 @@ def run_shard(shard, tier, seed, acc) -> None:
 def replay(case, seed, acc) -> None:
     seams.block_network()
     label, api, kind = case[0], case[1], case[2]
+    if label == "seq":
+        run_shard(["seq", api], "quick", seed, acc)
+        return
     replies, target = canned(kind)
     reply = replies[target]
     acc.ev()
